@@ -965,7 +965,12 @@ def matcher(txn, event_id_iterator, query_items: tuple, stats: dict):
     match = compile_match_from_query(query_items)
 
     stats["index_hits"] = stats["index_misses"] = 0
+    seen = set()
     for event_id in event_id_iterator:
+        # an event indexed under several of the requested values is found once per value
+        if event_id in seen:
+            continue
+        seen.add(event_id)
         event_tuple = get_event_data(txn, event_id)
         if event_tuple and match(event_tuple):
             event = Event(
